@@ -18,6 +18,11 @@
 (h) _recv_data: a receive step that fails (MACError, ProtocolError, ...) is answered with DISCONNECT + _force_close,
     anything else with internal_error(); _finish_recv_packet: the receive counter moves by exactly one per accepted
     packet.  That the connection then really is closed and delivers nothing more is C10's part of the argument.
+(i) end of the transport: eof_received / connection_lost while the connection is still open (no DISCONNECT received or
+    sent, no error) reach _force_close with an error (ConnectionLost), never with None - whatever is buffered; an
+    error given by the transport is passed on unchanged; _force_close hands the reason it was given to _cleanup.
+    mac.py: a tag whose length differs from the negotiated MAC size never verifies (_HMAC, _UMAC, _NullMAC); the MAC
+    table pairs every hash_size with a handler that produces tags of that size (data lemma).
 """
 import z3
 from pyvc.contracts import *
@@ -43,6 +48,16 @@ ASSUMPTIONS = [
     'contract (RFC 4253 6: a packet is at least one block), it is not proved harmless here',
     'a verified packet whose padding_length byte is 0 (malformed per RFC 4253 6, minimum 4) is treated as the code '
     'treats it (empty payload -> PacketDecodeError); the bytes are authenticated either way',
+    'class invariants of the MAC objects used as requires of sign/verify: _HMAC 1 <= _hash_size <= digest_size(_hash_alg), '
+    '_UMAC _hash_size == tag size of the variant; the only writer is MAC.__init__ / _HMAC.__init__ / _UMAC.__init__ '
+    'called from get_mac with a row of _mac_algs_list, and every row satisfies it (lemma mac-table-tag-sizes, read '
+    'from the AST of mac.py; digest sizes taken from hashlib, umac64/umac128 tag sizes 8/16 from the variant names)',
+    'library contracts (trusted): hmac.new(key, data, alg).digest() is alg.digest_size bytes long; the umac object\'s '
+    'digest() has the tag size of its variant',
+    'end of the transport: asyncio calls eof_received() / connection_lost(exc) when the stream ends (asyncio protocol '
+    'contract); what _cleanup(exc) then tells channels, waiters and the owner is C09\'s contract of '
+    'SSHConnection._cleanup; locally requested closes (abort(), disconnect(), close()) and a received '
+    'SSH_MSG_DISCONNECT (_process_disconnect, C10) are the orderly ways to end and are not constrained here',
     '(d) the receive counter clause is proved on _finish_recv_packet here; who else writes _recv_seq (nobody but '
     '__init__) is the frame condition checked under C06',
 ]
@@ -89,7 +104,10 @@ def verified_before_release(c):
                  a[1].z == c.old('_packet'),
                  a[2].z == z3.Extract(buf, 0, rem - msz),
                  a[3].z == 4,
-                 a[4].z == z3.Extract(buf, rem - msz, msz)]
+                 a[4].z == z3.Extract(buf, rem - msz, msz),
+                 # the tag handed to the check has exactly the negotiated MAC size (the AEAD libraries take "the last
+                 # 16 bytes" of what they are given as the tag, the MACs compare against a tag of that size)
+                 z3.Length(a[4].z) == msz]
     else:
         conj.append(z3.Not(enc))
     for _n, (h, pkttype, seq, packet) in evs:
@@ -223,6 +241,97 @@ recv_data = Spec(
     raises={})
 
 
+# ------------------------------------------------------------------ end of the transport: truncation is an error
+# "removal ... of bytes is detected": cutting the stream (at any point, also exactly between two packets) removes
+# everything after the cut.  The only authenticated way for a peer to end an SSH connection is SSH_MSG_DISCONNECT
+# (RFC 4253 11.1); a transport that ends without one - eof_received(), or connection_lost() while the connection is
+# still open on our side (_transport set: no DISCONNECT was received or sent, no error closed it) - must reach the
+# application as an error, never as an orderly close (exc = None), whatever is or is not buffered at that moment.
+EXC = 'opt[opaque:Exception]'
+LOST_CONN = dict(CONN_FIELDS, _loop='obj:Loop', _transport='opt[obj:Transport]')
+LOST_CLASSES = dict(CONN_CLASSES, SSHConnection=LOST_CONN, Loop={}, Transport={})
+
+
+def is_error(c, v):
+    """v (what is reported as the reason of the close) is an exception object, not None"""
+    if isinstance(v, VExc):
+        return z3.BoolVal(True)
+    return z3.Not(c.is_none(v))
+
+
+def force_close_reports(c):
+    """an open connection: transport aborted, _cleanup(exc) scheduled exactly once with the reason it was given;
+    an already closed one: nothing (the first reason stands)"""
+    ev = c.events('call_soon')
+    was_open = z3.Not(c.is_none(c.oldv('_transport')))
+    if not ev:
+        return z3.Not(was_open)
+    cleanups = [a for _n, a in ev if len(a) >= 1 and isinstance(a[0], VTag) and a[0].tag.endswith('_cleanup')]
+    if len(cleanups) != 1 or len(cleanups[0]) != 2:
+        return z3.BoolVal(False)
+    return z3.And(was_open, c.is_none(c.newv('_transport')), c.eq(cleanups[0][1], c.argv('exc')))
+
+
+c01_force_close = Spec(
+    'C01', 'connection', 'SSHConnection._force_close', self_class='SSHConnection', params={'exc': EXC},
+    classes=LOST_CLASSES,
+    # loop.call_soon only queues a callback (asyncio contract): it does not run it and does not raise
+    stubs={'self._loop.call_soon': noop('call_soon')},
+    modifies=['_transport'],
+    ensures=[('the-reason-given-is-the-reason-reported-to-cleanup', force_close_reports),
+             ('closed-afterwards', lambda c: c.is_none(c.newv('_transport')))],
+    raises={})
+
+
+def c01_force_close_stub(cx):
+    outs = contract_stub(lambda: c01_force_close)(cx)
+    for o in outs:
+        o.event = ('force_close', tuple(cx.args))
+    return outs
+
+
+c01_force_close_stub.modifies = ('_transport',)
+c01_force_close_stub.spec_getter = lambda: c01_force_close
+
+
+def transport_end_is_an_error(given):
+    """exactly one _force_close; an error given by the transport is passed on unchanged; no error given but the
+    connection still open on our side => the reason is an error (ConnectionLost), never None"""
+    def clause(c):
+        ev = c.events('force_close')
+        if len(ev) != 1:
+            return z3.BoolVal(False)
+        a = ev[0][1][0]
+        g = given(c)
+        was_open = z3.Not(c.is_none(c.oldv('_transport')))
+        passed_on = z3.BoolVal(True) if g is VNone else z3.Implies(z3.Not(c.is_none(g)), c.eq(a, g))
+        if isinstance(a, VExc):
+            # (an exception made here: it has to be the "connection lost" error, a DisconnectError)
+            made = z3.BoolVal(a.cls == 'ConnectionLost')
+        else:
+            made = z3.BoolVal(True)
+        return z3.And(passed_on, made, z3.Implies(z3.And(c.is_none(g), was_open), is_error(c, a)))
+    return clause
+
+
+connection_lost = Spec(
+    'C01', 'connection', 'SSHConnection.connection_lost', self_class='SSHConnection', params={'exc': EXC},
+    classes=LOST_CLASSES, stubs={'self._force_close': c01_force_close_stub}, modifies=['_transport'],
+    always=[('a-transport-that-ends-while-the-connection-is-open-is-reported-as-an-error',
+             transport_end_is_an_error(lambda c: c.argv('exc')))],
+    ensures=[('closed-afterwards', lambda c: c.is_none(c.newv('_transport')))],
+    raises={})
+
+eof_received = Spec(
+    'C01', 'connection', 'SSHConnection.eof_received', self_class='SSHConnection',
+    classes=LOST_CLASSES, inline={'self.connection_lost': ('connection', 'SSHConnection.connection_lost')},
+    stubs={'self._force_close': c01_force_close_stub}, modifies=['_transport'],
+    always=[('end-of-file-without-disconnect-is-reported-as-an-error',
+             transport_end_is_an_error(lambda c: VNone))],
+    ensures=[('closed-afterwards', lambda c: c.is_none(c.newv('_transport')))],
+    raises={})
+
+
 # ------------------------------------------------------------------ encryption.py: verify before release
 # primitives as uninterpreted functions over bytes
 dec_f = z3.Function('cipher_decrypt', BytesS, BytesS)
@@ -349,13 +458,26 @@ Spec('C01', 'encryption', 'ChachaEncryption.decrypt_packet', self_class='ChachaE
 
 
 # ------------------------------------------------------------------ mac.py
-hmac_f = z3.Function('hmac_digest', BytesS, BytesS, BytesS)      # (key, data) -> digest
+# "a tag whose length differs from the negotiated MAC size never verifies": the MAC size the connection slices off the
+# stream (_recv_macsize) is the hash_size column of the MAC table, which is what every MAC object gets as _hash_size.
+# Library contracts (trusted): hmac.new(key, data, alg).digest() is a function of (key, data, alg) and is
+# alg.digest_size bytes long; umac_alg(key, msg, nonce).digest() is a function of its arguments and as long as the
+# variant's tag (umac64: 8, umac128: 16).  That every row of the MAC table has 1 <= hash_size <= digest_size (HMAC) /
+# hash_size == tag size (UMAC) is data: lemma `mac-table-tag-sizes` in extra_checks.
+HashAlgS = opaque_sort('HashAlg')
+UmacAlgS = opaque_sort('UmacAlg')
+hmac_f = z3.Function('hmac_digest', BytesS, BytesS, HashAlgS, BytesS)      # (key, data, digestmod) -> digest
+digest_size_f = z3.Function('hash_digest_size', HashAlgS, IntS)
+umac_size_f = z3.Function('umac_tag_size', UmacAlgS, IntS)
 
 
 def hmac_new_stub(cx):
+    key, data = cx.args[0], cx.args[1]
+    alg = cx.args[2] if len(cx.args) > 2 else cx.kwargs['digestmod']
     o = cx.fresh('obj:HM', 'hm')
-    cx.st.set_field(o, 'ghost_d', VBytes(hmac_f(cx.args[0].z, cx.args[1].z)))
-    return [Out(ret=o)]
+    d = hmac_f(key.z, data.z, alg.z)
+    cx.st.set_field(o, 'ghost_d', VBytes(d))
+    return [Out(ret=o, assume=[z3.Length(d) == digest_size_f(alg.z)], event=('hmac_new', (key, data, alg)))]
 
 
 hmac_new_stub.modifies = ()
@@ -369,19 +491,27 @@ hmac_digest_stub.modifies = ()
 
 MAC_CLASSES = {'_HMAC': {'_key': 'bytes', '_hash_size': 'int', '_hash_alg': 'opaque:HashAlg'}, 'HM': {'ghost_d': 'bytes'},
                '_NullMAC': {}}
+HMAC_STUBS = {'hmac.new': hmac_new_stub, 'hmac.new().digest': hmac_digest_stub, 'HM.digest': hmac_digest_stub}
 
 
-def hmac_sign_spec(c):
+def hmac_tag(c):
+    """RFC 4253 6.4: mac = MAC(key, sequence_number || unencrypted_packet), truncated to the negotiated size"""
     data = z3.Concat(be(z3.IntVal(4), c.arg('seq')), c.arg('packet'))
-    full = hmac_f(c.old('_key'), data)
-    return c.result == z3.Extract(full, 0, c.old('_hash_size'))
+    return z3.Extract(hmac_f(c.old('_key'), data, c.old('_hash_alg')), 0, c.old('_hash_size'))
+
+
+def hmac_inv(c):
+    """class invariant of _HMAC (written by __init__ only, from a row of the MAC table - see the data lemma)"""
+    return z3.And(c.arg('seq') >= 0, c.arg('seq') < 2 ** 32, c.old('_hash_size') >= 1,
+                  c.old('_hash_size') <= digest_size_f(c.old('_hash_alg')))
 
 
 hmac_sign = Spec('C01', 'mac', '_HMAC.sign', self_class='_HMAC', params=dict(seq='int', packet='bytes'),
-                 classes=MAC_CLASSES,
-                 stubs={'hmac.new': hmac_new_stub, 'hmac.new().digest': hmac_digest_stub, 'HM.digest': hmac_digest_stub},
-                 requires=lambda c: z3.And(c.arg('seq') >= 0, c.arg('seq') < 2 ** 32, c.old('_hash_size') >= 1),
-                 ensures=[('rfc4253-6.4-mac-over-seq-and-packet', hmac_sign_spec)], returns='bytes')
+                 classes=MAC_CLASSES, stubs=dict(HMAC_STUBS), requires=hmac_inv, modifies=[],
+                 ensures=[('rfc4253-6.4-mac-over-seq-and-packet', lambda c: c.result == hmac_tag(c)),
+                          ('tag-has-the-negotiated-mac-size',
+                           lambda c: z3.Length(c.result) == c.old('_hash_size'))],
+                 returns='bytes')
 
 
 def compare_digest_stub(cx):
@@ -391,14 +521,22 @@ def compare_digest_stub(cx):
 
 compare_digest_stub.modifies = ()
 
+
+def wrong_size_never_verifies(c):
+    """a tag whose length differs from the negotiated MAC size never verifies (whatever its bytes are)"""
+    return z3.Implies(c.result, z3.Length(c.arg('sig')) == c.old('_hash_size'))
+
+
+# (hmac.new is stubbed here too, so that a verify that computes the digest itself is analysed, not "unsupported")
 hmac_verify = Spec('C01', 'mac', '_HMAC.verify', self_class='_HMAC',
                    params=dict(seq='int', packet='bytes', sig='bytes'), classes=MAC_CLASSES,
-                   stubs={'self.sign': contract_stub(lambda: hmac_sign), 'hmac.compare_digest': compare_digest_stub},
-                   requires=lambda c: z3.And(c.arg('seq') >= 0, c.arg('seq') < 2 ** 32, c.old('_hash_size') >= 1),
-                   ensures=[('verify-iff-sig-equals-mac-of-seq-and-packet', lambda c: c.result == (
-                       c.arg('sig') == z3.Extract(hmac_f(c.old('_key'), z3.Concat(be(z3.IntVal(4), c.arg('seq')),
-                                                                            c.arg('packet'))),
-                                                  0, c.old('_hash_size'))))],
+                   stubs=dict(HMAC_STUBS, **{'self.sign': contract_stub(lambda: hmac_sign),
+                                             'hmac.compare_digest': compare_digest_stub}),
+                   requires=hmac_inv, modifies=[],
+                   ensures=[('verify-iff-sig-equals-mac-of-seq-and-packet',
+                             lambda c: c.result == (c.arg('sig') == hmac_tag(c))),
+                            ('a-tag-of-another-size-than-the-negotiated-mac-size-never-verifies',
+                             wrong_size_never_verifies)],
                    returns='bool')
 
 null_verify = Spec('C01', 'mac', '_NullMAC.verify', self_class='_NullMAC',
@@ -408,43 +546,98 @@ null_verify = Spec('C01', 'mac', '_NullMAC.verify', self_class='_NullMAC',
 
 
 # _UMAC (umac-64 / umac-128, OpenSSH PROTOCOL): tag = UMAC(key, message = packet, nonce = UInt64(seq)); the
-# primitive is an uninterpreted function of (key, message, nonce)
-umac_f = z3.Function('umac_digest', BytesS, BytesS, BytesS, BytesS)
+# primitive is an uninterpreted function of (variant, key, message, nonce)
+umac_f = z3.Function('umac_digest', UmacAlgS, BytesS, BytesS, BytesS, BytesS)
 
 
 def umac_new_stub(cx):
+    alg = cx.selff('_umac_alg')
     o = cx.fresh('obj:UM', 'um')
-    cx.st.set_field(o, 'ghost_d', VBytes(umac_f(cx.args[0].z, cx.args[1].z, cx.args[2].z)))
-    return [Out(ret=o, event=('umac', tuple(cx.args)))]
+    d = umac_f(alg.z, cx.args[0].z, cx.args[1].z, cx.args[2].z)
+    cx.st.set_field(o, 'ghost_d', VBytes(d))
+    return [Out(ret=o, assume=[z3.Length(d) == umac_size_f(alg.z)], event=('umac', tuple(cx.args)))]
 
 
 umac_new_stub.modifies = ()
 
-UMAC_CLASSES = {'_UMAC': {'_key': 'bytes', '_hash_size': 'int'},      # (_umac_alg is only ever called: stub)
+UMAC_CLASSES = {'_UMAC': {'_key': 'bytes', '_hash_size': 'int', '_umac_alg': 'opaque:UmacAlg'},
                 'UM': {'ghost_d': 'bytes'}}
+UMAC_STUBS = {'self._umac_alg': umac_new_stub, 'self._umac_alg().digest': hmac_digest_stub,
+              'UM.digest': hmac_digest_stub}
 
 
 def umac_tag(c):
-    return umac_f(c.old('_key'), c.arg('packet'), be(z3.IntVal(8), c.arg('seq')))
+    return umac_f(c.old('_umac_alg'), c.old('_key'), c.arg('packet'), be(z3.IntVal(8), c.arg('seq')))
 
 
-SEQ32 = lambda c: z3.And(c.arg('seq') >= 0, c.arg('seq') < 2 ** 32)       # noqa: E731
+def umac_inv(c):
+    """class invariant of _UMAC (written by __init__ only, from a row of the MAC table - see the data lemma)"""
+    return z3.And(c.arg('seq') >= 0, c.arg('seq') < 2 ** 32, c.old('_hash_size') >= 1,
+                  c.old('_hash_size') == umac_size_f(c.old('_umac_alg')))
+
 
 umac_sign = Spec('C01', 'mac', '_UMAC.sign', self_class='_UMAC', params=dict(seq='int', packet='bytes'),
-                 classes=UMAC_CLASSES,
-                 stubs={'self._umac_alg': umac_new_stub, 'self._umac_alg().digest': hmac_digest_stub,
-                        'UM.digest': hmac_digest_stub},
-                 requires=SEQ32,
-                 ensures=[('umac-over-packet-with-nonce-uint64-seq', lambda c: c.result == umac_tag(c))],
+                 classes=UMAC_CLASSES, stubs=dict(UMAC_STUBS), requires=umac_inv, modifies=[],
+                 ensures=[('umac-over-packet-with-nonce-uint64-seq', lambda c: c.result == umac_tag(c)),
+                          ('tag-has-the-negotiated-mac-size',
+                           lambda c: z3.Length(c.result) == c.old('_hash_size'))],
                  returns='bytes')
 
 umac_verify = Spec('C01', 'mac', '_UMAC.verify', self_class='_UMAC',
                    params=dict(seq='int', packet='bytes', sig='bytes'), classes=UMAC_CLASSES,
-                   stubs={'self.sign': contract_stub(lambda: umac_sign), 'hmac.compare_digest': compare_digest_stub},
-                   requires=SEQ32,
+                   stubs=dict(UMAC_STUBS, **{'self.sign': contract_stub(lambda: umac_sign),
+                                             'hmac.compare_digest': compare_digest_stub}),
+                   requires=umac_inv, modifies=[],
                    ensures=[('verify-iff-sig-equals-umac-of-packet-under-nonce-seq',
-                             lambda c: c.result == (c.arg('sig') == umac_tag(c)))],
+                             lambda c: c.result == (c.arg('sig') == umac_tag(c))),
+                            ('a-tag-of-another-size-than-the-negotiated-mac-size-never-verifies',
+                             wrong_size_never_verifies)],
                    returns='bool')
+
+
+def mac_table_lemma():
+    """data: every row of mac.py's _mac_algs_list pairs its hash_size (the MAC size the connection negotiates and
+    slices off the stream) with a handler whose tag can have that size: _HMAC rows 1 <= hash_size <= digest_size of
+    the hash, _UMAC rows hash_size == tag size of the variant, the _NullMAC row hash_size == 0"""
+    import ast
+    import hashlib
+    from pyvc import extract
+    mod = extract.get_module('mac')
+    umac = {'umac64': 8, 'umac128': 16}
+    rows, bad = [], []
+    for node in ast.walk(mod.tree):
+        tgt = None
+        if isinstance(node, ast.AnnAssign) and isinstance(node.target, ast.Name):
+            tgt = node.target.id
+        elif isinstance(node, ast.AugAssign) and isinstance(node.target, ast.Name):
+            tgt = node.target.id
+        elif isinstance(node, ast.Assign) and isinstance(node.targets[0], ast.Name):
+            tgt = node.targets[0].id
+        if tgt != '_mac_algs_list' or not isinstance(node.value, ast.Tuple):
+            continue
+        for row in node.value.elts:
+            name = ast.unparse(row.elts[0])
+            size = ast.literal_eval(row.elts[2])
+            handler = ast.unparse(row.elts[4])
+            args = [ast.unparse(a) for a in row.elts[5].elts]
+            rows.append((name, size, handler, args))
+            if handler == '_HMAC':
+                ok = len(args) == 1 and hasattr(hashlib, args[0]) and 1 <= size <= getattr(hashlib, args[0])().digest_size
+            elif handler == '_UMAC':
+                ok = len(args) == 1 and umac.get(args[0]) == size
+            elif handler == '_NullMAC':
+                ok = size == 0 and not args
+            else:
+                ok = False
+            if not ok:
+                bad.append((name, size, handler, args))
+    ok = len(rows) >= 1 and not bad
+    return {'name': 'C01.mac._mac_algs_list#mac-table-tag-sizes', 'verdict': 'proved' if ok else 'refuted',
+            'detail': {'rows': len(rows), 'bad': bad}, 'backend': 'data (AST literal)', 'replayed': True}
+
+
+def extra_checks(tier, seed):
+    return {'lemmas': [mac_table_lemma()]}
 
 
 # ------------------------------------------------------------------ crypto/cipher.py: AES-GCM (RFC 5647)
